@@ -174,6 +174,25 @@ Section Meaning.
       | Some b => match l_view_of L b with BVal v => Fin (v, set_env c2 rest) | _ => Stuck end
       end.
   Proof. exact (call_body_result Name Atom Op Val World Bnd FId Err L blk). Qed.
+  (* the value of a call depends only on the CALLEE's frame: it is what Result is bound to in the frame dropped at the end of the
+     call; the frames of the caller - its own Result, a global named Result - are not consulted *)
+  Theorem C11_call_value_from_callee_frame : forall fd vs (c : gcfg) v c',
+    call_body L blk fd vs c = Fin (v, c') ->
+    exists sg c2 fr,
+      blk (fd_body fd) (set_env c (ScriptSem.bind_params L (fd_params fd) 0 vs (env c))) = Fin (sg, c2) /\
+      env c2 = fr :: env c' /\ world c' = world c2 /\
+      match lookup_frame L (l_result_name L) fr with
+      | None => v = l_vnone L
+      | Some b => l_view_of L b = BVal v
+      end.
+  Proof. exact (call_value_from_callee_frame Name Atom Op Val World Bnd FId Err L blk). Qed.
+  (* a call whose body binds no Result on the path it takes yields "no value" (0 in arithmetic, the default as an argument, empty
+     when printed), whatever lies below *)
+  Theorem C11_call_without_result : forall fd vs (c : gcfg) sg c2 fr rest,
+    blk (fd_body fd) (set_env c (ScriptSem.bind_params L (fd_params fd) 0 vs (env c))) = Fin (sg, c2) ->
+    env c2 = fr :: rest -> lookup_frame L (l_result_name L) fr = None ->
+    call_body L blk fd vs c = Fin (l_vnone L, set_env c2 rest).
+  Proof. exact (call_without_result_yields_nothing Name Atom Op Val World Bnd FId Err L blk). Qed.
 End Meaning.
 
 Section Scopes.
@@ -307,6 +326,14 @@ Example C11_example_swapped_arguments :
    | Ok (_, log) => log = zs "[PRINT](0) 312 221 716" | _ => False end).
 Proof. vm_compute. repeat split. Qed.
 
+(* a call that sets no value yields nothing - not the caller's own Result, not a global named Result *)
+Example C11_example_no_value :
+  (match compile_script (zs "Function Beep(N){ IF(N>0){ RETURN(N) } } Function Total(){ Result=100; Result=Result+Beep(0); } PRINT(Total())") with
+   | Ok (_, log) => log = zs "[PRINT](0) 100" | _ => False end) /\
+  (match compile_script (zs "Int Result=5; Function Proc(){ c } PRINT(1+Proc())") with
+   | Ok (_, log) => log = zs "[PRINT](0) 1" | _ => False end).
+Proof. vm_compute. repeat split. Qed.
+
 (* the limit theorem is not vacuous: a language with limit 2, one counter, a loop that never ends *)
 Definition ex_lang : lang nat unit unit nat nat nat nat unit :=
   mkLang Nat.eqb 0%nat (fun b => BVal b) (fun v => v) (fun v => negb (Nat.eqb v 0)) 0%nat 0%nat (fun _ => false)
@@ -338,6 +365,8 @@ Print Assumptions C11_signals_stop_at_call.
 Print Assumptions C11_return_immediate.
 Print Assumptions C11_return_from_loops.
 Print Assumptions C11_return_keeps_result.
+Print Assumptions C11_call_value_from_callee_frame.
+Print Assumptions C11_call_without_result.
 Print Assumptions C11_scope.
 Print Assumptions C11_scope_statement_call.
 Print Assumptions C11_local_writes_only.
